@@ -281,9 +281,9 @@ Section Refine.
 
   Lemma astep_InvS s ws j e D D' recs :
     is_walk es x s ws -> nth_error es j = Some e ->
-    astep between ssid x e D = Ok (D', recs) -> InvS s ws j D -> InvS s ws (S j) D'.
+    astep between ssid (cov1 x) e D = Ok (D', recs) -> InvS s ws j D -> InvS s ws (S j) D'.
   Proof.
-    intros W Ej H I. unfold astep in H.
+    intros W Ej H I. unfold astep in H. change (cvE (cov1 x) e) with (covers e x) in H.
     destruct (get D (echild e)) as [dc| | |] eqn:Ec; cbn [bind] in H; try discriminate.
     destruct (get D (eparent e)) as [dp| | |] eqn:Ep; cbn [bind] in H; try discriminate.
     destruct (covers e x) eqn:Hc.
@@ -308,9 +308,9 @@ Section Refine.
   Definition Absent (s : Z) (D : list (list Z)) : Prop := forall u dl, get D u = Ok dl -> cnt s dl = 0%nat.
 
   Lemma astep_Absent s e D D' recs :
-    astep between ssid x e D = Ok (D', recs) -> Absent s D -> Absent s D'.
+    astep between ssid (cov1 x) e D = Ok (D', recs) -> Absent s D -> Absent s D'.
   Proof.
-    intros H I. unfold astep in H.
+    intros H I. unfold astep in H. change (cvE (cov1 x) e) with (covers e x) in H.
     destruct (get D (echild e)) as [dc| | |] eqn:Ec; cbn [bind] in H; try discriminate.
     destruct (get D (eparent e)) as [dp| | |] eqn:Ep; cbn [bind] in H; try discriminate.
     destruct (covers e x).
@@ -531,11 +531,11 @@ Section Refine.
 
   Lemma astep_InvM j e D D' recs M :
     nth_error es j = Some e ->
-    astep between ssid x e D = Ok (D', recs) ->
+    astep between ssid (cov1 x) e D = Ok (D', recs) ->
     InvS a wa j D -> InvS b wb j D -> InvM j M ->
     InvM (S j) (M ++ filter (matches a b) recs).
   Proof.
-    intros Ej H Ia Ib IM. unfold astep in H.
+    intros Ej H Ia Ib IM. unfold astep in H. change (cvE (cov1 x) e) with (covers e x) in H.
     destruct (get D (echild e)) as [dc| | |] eqn:Ec; cbn [bind] in H; try discriminate.
     destruct (get D (eparent e)) as [dp| | |] eqn:Ep; cbn [bind] in H; try discriminate.
     destruct (covers e x) eqn:Hc.
@@ -658,14 +658,14 @@ Section Refine.
 
   Lemma arun_InvM : forall rest done D D' recs M,
     es = done ++ rest ->
-    arun between ssid x rest D = Ok (D', recs) ->
+    arun between ssid (cov1 x) rest D = Ok (D', recs) ->
     InvS a wa (length done) D -> InvS b wb (length done) D -> InvM (length done) M ->
     InvM (length es) (M ++ filter (matches a b) recs).
   Proof.
     induction rest as [|e t IH]; intros done D D' recs M Hes H Ia Ib IM; cbn [arun] in H.
     - inversion H; subst. cbn [filter]. rewrite !app_nil_r. exact IM.
-    - destruct (astep between ssid x e D) as [[D1 r1]| | |] eqn:E1; cbn [bind fst snd] in H; try discriminate.
-      destruct (arun between ssid x t D1) as [[D2 r2]| | |] eqn:E2; cbn [bind fst snd] in H; try discriminate.
+    - destruct (astep between ssid (cov1 x) e D) as [[D1 r1]| | |] eqn:E1; cbn [bind fst snd] in H; try discriminate.
+      destruct (arun between ssid (cov1 x) t D1) as [[D2 r2]| | |] eqn:E2; cbn [bind fst snd] in H; try discriminate.
       inversion H; subst D' recs; clear H.
       assert (Ej : nth_error es (length done) = Some e).
       { rewrite Hes, nth_error_app2 by lia. rewrite Nat.sub_diag. reflexivity. }
@@ -694,14 +694,14 @@ Section Refine.
 
   (* pairs that are not requested produce nothing *)
   Lemma arun_nopass a b (Hab : a <> b) : SliceProofs.apass between ssid a b = false ->
-    forall rest D D' recs, arun between ssid x rest D = Ok (D', recs) -> filter (matches a b) recs = [].
+    forall rest D D' recs, arun between ssid (cov1 x) rest D = Ok (D', recs) -> filter (matches a b) recs = [].
   Proof.
     intros Hp. induction rest as [|e t IH]; intros D D' recs H; cbn [arun] in H.
     - inversion H; reflexivity.
-    - destruct (astep between ssid x e D) as [[D1 r1]| | |] eqn:E1; cbn [bind fst snd] in H; try discriminate.
-      destruct (arun between ssid x t D1) as [[D2 r2]| | |] eqn:E2; cbn [bind fst snd] in H; try discriminate.
+    - destruct (astep between ssid (cov1 x) e D) as [[D1 r1]| | |] eqn:E1; cbn [bind fst snd] in H; try discriminate.
+      destruct (arun between ssid (cov1 x) t D1) as [[D2 r2]| | |] eqn:E2; cbn [bind fst snd] in H; try discriminate.
       inversion H; subst. rewrite filter_app, (IH _ _ _ E2), app_nil_r.
-      unfold astep in E1.
+      unfold astep in E1. change (cvE (cov1 x) e) with (covers e x) in E1.
       destruct (get D (echild e)) as [dc| | |]; cbn [bind] in E1; try discriminate.
       destruct (get D (eparent e)) as [dp| | |]; cbn [bind] in E1; try discriminate.
       destruct (covers e x); [|inversion E1; reflexivity].
@@ -711,17 +711,17 @@ Section Refine.
   Qed.
 
   Lemma arun_absent a b (Hab : a <> b) :
-    forall rest D D' recs, arun between ssid x rest D = Ok (D', recs) ->
+    forall rest D D' recs, arun between ssid (cov1 x) rest D = Ok (D', recs) ->
     (Absent a D \/ Absent b D) -> filter (matches a b) recs = [].
   Proof.
     induction rest as [|e t IH]; intros D D' recs H HA; cbn [arun] in H.
     - inversion H; reflexivity.
-    - destruct (astep between ssid x e D) as [[D1 r1]| | |] eqn:E1; cbn [bind fst snd] in H; try discriminate.
-      destruct (arun between ssid x t D1) as [[D2 r2]| | |] eqn:E2; cbn [bind fst snd] in H; try discriminate.
+    - destruct (astep between ssid (cov1 x) e D) as [[D1 r1]| | |] eqn:E1; cbn [bind fst snd] in H; try discriminate.
+      destruct (arun between ssid (cov1 x) t D1) as [[D2 r2]| | |] eqn:E2; cbn [bind fst snd] in H; try discriminate.
       inversion H; subst.
       assert (HA1 : Absent a D1 \/ Absent b D1) by (destruct HA; [left | right]; eapply astep_Absent; eauto).
       rewrite filter_app, (IH _ _ _ E2 HA1), app_nil_r.
-      unfold astep in E1.
+      unfold astep in E1. change (cvE (cov1 x) e) with (covers e x) in E1.
       destruct (get D (echild e)) as [dc| | |] eqn:Ec; cbn [bind] in E1; try discriminate.
       destruct (get D (eparent e)) as [dp| | |] eqn:Ep; cbn [bind] in E1; try discriminate.
       destruct (covers e x); [|inversion E1; reflexivity].
@@ -806,6 +806,56 @@ Qed.
 Lemma filter_map_c19 {A B} (h : A -> B) (P : B -> bool) l : filter P (map h l) = map h (filter (fun r => P (h r)) l).
 Proof. induction l as [|r t IH]; simpl; [reflexivity|]. destruct (P (h r)); simpl; rewrite IH; reflexivity. Qed.
 
+(* the abstract sweep at one position, for one pair *)
+Lemma arun_pair_result :
+  forall (between : bool) (ssid times : list Z) (x : Z) (es : list edge) (a b : Z)
+         (wa wb : list (nat * Z)) (Dfin : list (list Z)) (recs : list (Z * Z * Z)),
+    valid_at times es x -> a <> b -> is_walk es x a wa -> is_walk es x b wb ->
+    arun between ssid (cov1 x) es (D0 ssid) = Ok (Dfin, recs) ->
+    map snd (filter (matches a b) recs)
+    = if requested between ssid a b
+      then match first_common (ancs a wa) (ancs b wb) 0 with Some (_, _, m) => [m] | None => [] end
+      else [].
+Proof.
+  intros between ssid times x es a b wa wb Dfin recs [Vs Vo Vu] Hab Wa Wb E.
+  unfold requested.
+  destruct (negb (sid ssid a =? -1)) eqn:Sa; cbn [andb].
+  - destruct (negb (sid ssid b =? -1)) eqn:Sb; cbn [andb].
+    + destruct (apass between ssid a b) eqn:Hp.
+      * pose proof (arun_InvM between ssid times x es Vs Vo Vu a b wa wb Hab Wa Wb Hp
+                      es [] (D0 ssid) _ recs [] eq_refl E
+                      (InvS_init ssid a wa Sa) (InvS_init ssid b wb Sb)) as IM.
+        cbn [app length] in IM.
+        assert (IM0 : InvM a b wa wb 0 []).
+        { left. split; [reflexivity|]. intros u [Ma Mb]. apply onpath_0 in Ma. apply onpath_0 in Mb. congruence. }
+        exact (InvM_final x es a b wa wb Hab Wa Wb _ (IM IM0)).
+      * rewrite (arun_nopass between ssid x a b Hab Hp _ _ _ _ E). reflexivity.
+    + rewrite (arun_absent between ssid x a b Hab _ _ _ _ E); [reflexivity|].
+      right. apply Absent_init. exact Sb.
+  - rewrite (arun_absent between ssid x a b Hab _ _ _ _ E); [reflexivity|].
+    left. apply Absent_init. exact Sa.
+Qed.
+
+Lemma cov1_whole x L : 0 <= x < L -> cov1 x 0 L = true.
+Proof. intros H. unfold cov1. apply andb_true_iff. split; [apply Z.leb_le | apply Z.ltb_lt]; lia. Qed.
+
+(* the unfiltered run of the model, as a run of the sweep on the initial ancestry map *)
+Lemma ibd_records_unfiltered_run c ssid out0 :
+  init_ssid c = Ok ssid -> ibd_records (unfiltered c) = Ok out0 ->
+  exists A', run_edges (PU (is_between c) ssid (ctimes c)) (cedges c) (init_amap (cL c) ssid) = Ok (A', out0).
+Proof.
+  intros Hi Hr. unfold ibd_records in Hr. simpl in Hr.
+  assert (Ei : init_ssid (unfiltered c) = init_ssid c) by reflexivity. rewrite Ei, Hi in Hr. simpl in Hr.
+  change (is_between (unfiltered c)) with (is_between c) in Hr.
+  destruct (run_edges _ (cedges c) (init_amap (cL c) ssid)) as [[A' o0]| | |] eqn:E in Hr; simpl in Hr; try discriminate.
+  inversion Hr; subst o0. exists A'. exact E.
+Qed.
+
+Lemma records_reshape (cv : Z -> Z -> bool) a b out0 :
+  map (fun r => seg_node (rec_seg r)) (filter (fun r => covx cv (rec_seg r) && pair_is a b r) out0)
+  = map snd (filter (matches a b) (map rabs (recx cv out0))).
+Proof. rewrite filter_andb. unfold recx. rewrite filter_map_c19, map_map. reflexivity. Qed.
+
 (* At every position x: for every pair the unfiltered algorithm records exactly one segment
    covering x if the pair is requested and has a common ancestor at x — labelled with the
    MRCA of the specification — and none otherwise. *)
@@ -816,50 +866,25 @@ Theorem alg_position_correct_lemma :
     0 <= x < cL c -> a <> b ->
     ibd_records (unfiltered c) = Ok out0 ->
     label_at (spec_fuel c) (cedges c) x a b = Ok lab ->
-    map (fun r => seg_node (rec_seg r)) (filter (fun r => covx x (rec_seg r) && pair_is a b r) out0)
+    map (fun r => seg_node (rec_seg r)) (filter (fun r => covx (cov1 x) (rec_seg r) && pair_is a b r) out0)
     = if requested (is_between c) ssid a b
       then match lab with Some l => [label_mrca l] | None => [] end
       else [].
 Proof.
-  intros c ssid out0 x a b lab Hi [Vs Vo Vu] Hx Hab Hr Hl.
-  unfold ibd_records in Hr. simpl in Hr.
-  assert (Ei : init_ssid (unfiltered c) = init_ssid c) by reflexivity. rewrite Ei, Hi in Hr. simpl in Hr.
-  change (is_between (unfiltered c)) with (is_between c) in Hr.
-  destruct (run_edges _ (cedges c) (init_amap (cL c) ssid)) as [[A' o0]| | |] eqn:E in Hr; simpl in Hr; try discriminate.
-  inversion Hr; subst o0; clear Hr.
-  apply (run_slice (is_between c) ssid (ctimes c) x) in E.
-  rewrite (DX_init ssid x (cL c) Hx) in E. fold (D0 ssid) in E.
-  (* the two walks *)
+  intros c ssid out0 x a b lab Hi V Hx Hab Hr Hl.
+  destruct (ibd_records_unfiltered_run c ssid out0 Hi Hr) as (A' & E).
+  apply (run_slice (is_between c) ssid (ctimes c) (cov1 x) (cov1_inter x) (cov1_nonempty x)) in E.
+  rewrite (DX_init ssid (cov1 x) (cL c) (cov1_whole x (cL c) Hx)) in E. fold (D0 ssid) in E.
   unfold label_at in Hl.
   destruct (ups (spec_fuel c) (cedges c) x a) as [wa|] eqn:Ea; [|destruct (ups (spec_fuel c) (cedges c) x b); discriminate].
   destruct (ups (spec_fuel c) (cedges c) x b) as [wb|] eqn:Eb; [|discriminate].
   inversion Hl; subst lab; clear Hl.
   pose proof (ups_is_walk _ _ _ _ _ Ea) as Wa. pose proof (ups_is_walk _ _ _ _ _ Eb) as Wb.
-  (* reshape the left-hand side *)
-  rewrite filter_andb.
-  assert (LHS : map (fun r => seg_node (rec_seg r)) (filter (pair_is a b) (filter (fun r => covx x (rec_seg r)) out0))
-                = map snd (filter (matches a b) (map rabs (recx x out0)))).
-  { unfold recx. rewrite filter_map_c19, map_map. reflexivity. }
-  rewrite LHS. clear LHS.
-  set (recs := map rabs (recx x out0)) in *.
-  unfold requested.
-  destruct (negb (sid ssid a =? -1)) eqn:Sa; cbn [andb].
-  - destruct (negb (sid ssid b =? -1)) eqn:Sb; cbn [andb].
-    + destruct (apass (is_between c) ssid a b) eqn:Hp.
-      * pose proof (arun_InvM (is_between c) ssid (ctimes c) x (cedges c) Vs Vo Vu a b wa wb Hab Wa Wb Hp
-                      (cedges c) [] (D0 ssid) _ recs [] eq_refl E
-                      (InvS_init ssid a wa Sa) (InvS_init ssid b wb Sb)) as IM.
-        cbn [app length] in IM.
-        assert (IM0 : InvM a b wa wb 0 []).
-        { left. split; [reflexivity|]. intros u [Ma Mb]. apply onpath_0 in Ma. apply onpath_0 in Mb. congruence. }
-        rewrite (InvM_final x (cedges c) a b wa wb Hab Wa Wb _ (IM IM0)).
-        unfold label_of_walks. fold (ancs a wa). fold (ancs b wb).
-        destruct (first_common (ancs a wa) (ancs b wb) 0) as [[[i i2] m]|]; reflexivity.
-      * rewrite (arun_nopass (is_between c) ssid x a b Hab Hp _ _ _ _ E). reflexivity.
-    + rewrite (arun_absent (is_between c) ssid x a b Hab _ _ _ _ E); [reflexivity|].
-      right. apply Absent_init. exact Sb.
-  - rewrite (arun_absent (is_between c) ssid x a b Hab _ _ _ _ E); [reflexivity|].
-    left. apply Absent_init. exact Sa.
+  rewrite records_reshape.
+  rewrite (arun_pair_result _ _ _ _ _ a b wa wb _ _ V Hab Wa Wb E).
+  destruct (requested (is_between c) ssid a b); [|reflexivity].
+  unfold label_of_walks. fold (ancs a wa). fold (ancs b wb).
+  destruct (first_common (ancs a wa) (ancs b wb) 0) as [[[i i2] m]|]; reflexivity.
 Qed.
 
 (* ---- a boolean checker for the hypotheses (used for the non-vacuity examples and evaluated
@@ -909,7 +934,7 @@ Proof. vm_compute. reflexivity. Qed.
 
 Example docs_position_example :
   exists out0, ibd_records (unfiltered (docs_case_alg 0 None)) = Ok out0 /\
-    map (fun r => seg_node (rec_seg r)) (filter (fun r => covx 1 (rec_seg r) && pair_is 1 2 r) out0) = [4] /\
-    map (fun r => seg_node (rec_seg r)) (filter (fun r => covx 5 (rec_seg r) && pair_is 0 2 r) out0) = [3] /\
+    map (fun r => seg_node (rec_seg r)) (filter (fun r => covx (cov1 1) (rec_seg r) && pair_is 1 2 r) out0) = [4] /\
+    map (fun r => seg_node (rec_seg r)) (filter (fun r => covx (cov1 5) (rec_seg r) && pair_is 0 2 r) out0) = [3] /\
     label_at (spec_fuel (docs_case_alg 0 None)) (cedges (docs_case_alg 0 None)) 1 1 2 = Ok (Some (4, [2%nat], [3%nat])).
 Proof. eexists. split; [vm_compute; reflexivity|]. vm_compute. repeat split; reflexivity. Qed.
